@@ -368,7 +368,7 @@ def _value_calls(cg, k):
     return out
 
 
-def shared_locks(model, res, c, R):
+def shared_locks(model, res, c, R, reentry=False):
     """A synchronisation object that lives on a class or a module (one object for every parser) must not be held while host code
     runs: a listener or custom function that waits for an evaluation on another parser in another thread then never returns."""
     cg = c.cg
@@ -397,9 +397,22 @@ def shared_locks(model, res, c, R):
                 for t in node.targets:
                     if isinstance(t, ast.Attribute) and isinstance(t.value, ast.Name) and t.value.id == s_ and t.attr not in shared:
                         shared[t.attr] = (m, node, 'per-object %s.%s' % (owner.name, t.attr))
+    if reentry:
+        # C01: only a lock that its holder cannot take a second time (threading.Lock, a semaphore of one) matters - a callback that
+        # evaluates on the same parser while the lock is held waits for itself
+        def _once_only(node):
+            call = node if isinstance(node, ast.Call) else node.value
+            ctor = (sa.call_name(call) or '').split('.')[-1]
+            if ctor == 'Lock':
+                return True
+            if ctor in ('Semaphore', 'BoundedSemaphore'):
+                a = call.args[0] if call.args else next((k.value for k in call.keywords if k.arg == 'value'), None)
+                return a is None or (isinstance(a, ast.Constant) and a.value == 1)
+            return False
+        shared = dict((nm, v) for nm, v in shared.items() if _once_only(v[1]))
     res.analysed['synchronisation objects'] = sorted(v[2] for v in shared.values())
     if not shared:
-        res.ob(R, 'package', 'no lock object in the package', True)
+        res.ob(R, 'package', 'no %slock object in the package' % ('non-reentrant ' if reentry else ''), True)
         return
     host_calling = set(k for k in cg.funcs if _value_calls(cg, k))
     for k in sorted(c.reach):
@@ -430,6 +443,12 @@ def shared_locks(model, res, c, R):
                 # name a callback rather than an arbitrary function that calls a value
                 via = sorted(via, key=lambda kk: (0 if 'call_' in kk[1] or 'emit' in kk[1] else 1, kk))
                 what = src(direct[0]) if direct else 'via %s' % fmt(via[0])
+                if reentry:
+                    why = ('the %s lock cannot be taken twice by its holder and is held while host code runs (%s): a listener or '
+                           'custom function that evaluates a formula on the same parser waits for the lock its own caller holds, and '
+                           'parse() never returns' % (held[2], what))
+                    res.violation(R, '%s:%s:non-reentrant-lock-held-over-host-code' % k, m.where(n), why, func=k[1])
+                    continue
                 if held[2].startswith('per-object'):
                     why = ('the %s lock is held while host code runs (%s): a listener or custom function of this parser that evaluates on '
                            'another parser, while a second thread does the same the other way round, makes both wait for ever '
